@@ -76,10 +76,22 @@ class _SynthFinder(importlib.abc.MetaPathFinder, importlib.abc.Loader):
     """Modules named vfdef_<n> come into existence only when imported (for Deferred[...])."""
 
     PREFIX = "vfdef_"
+    PKG = "vfdefp_"     # packages: <pkg>.base (Thing, Other), <pkg>.impl (Sub(Thing)), <pkg>.api (re-exports)
+    SUBS = {
+        "base": "class Thing:\n    pass\nclass Other:\n    pass\n",
+        "impl": "from .base import Thing\nclass Sub(Thing):\n    pass\n",
+        "api": "from .base import Thing, Other\nfrom .impl import Sub\n",
+    }
 
     def find_spec(self, name, path, target=None):
         if name.startswith(self.PREFIX):
             return importlib.machinery.ModuleSpec(name, self)
+        if name.startswith(self.PKG):
+            pkg, _, sub = name.partition(".")
+            if not sub:
+                return importlib.machinery.ModuleSpec(name, self, is_package=True)
+            if sub in self.SUBS:
+                return importlib.machinery.ModuleSpec(name, self)
         return None
 
     def create_module(self, spec):
@@ -87,6 +99,15 @@ class _SynthFinder(importlib.abc.MetaPathFinder, importlib.abc.Loader):
 
     def exec_module(self, module):
         ns = module.__dict__
+        name = module.__name__
+        if name.startswith(self.PKG):
+            pkg, _, sub = name.partition(".")
+            if not sub:
+                module.__path__ = []
+                exec("from . import base, impl, api\nfrom .api import Thing, Sub, Other\n", ns)
+            else:
+                exec(self.SUBS[sub], ns)
+            return
         exec("class Thing:\n    pass\nclass Sub(Thing):\n    pass\nclass Other:\n    pass\n", ns)
 
 
@@ -97,8 +118,8 @@ if not any(isinstance(f, _SynthFinder) for f in sys.meta_path):
 _synth_counter = itertools.count()
 
 
-def fresh_deferred_module(tag=""):
-    return f"vfdef_{tag}{next(_synth_counter)}"
+def fresh_deferred_module(tag="", package=False):
+    return f"{'vfdefp_' if package else 'vfdef_'}{tag}{next(_synth_counter)}"
 
 
 # --------------------------------------------------------------------------- type expressions
